@@ -131,25 +131,28 @@ def pyIndex (len : Nat) (i : Int) : Option Nat :=
   if 0 ≤ i then (if i.toNat < len then some i.toNat else none)
   else (if (-i).toNat ≤ len then some (len - (-i).toNat) else none)
 
-/-- some rule of `l` has a kind in `ks` -/
-def hasKind (ks : List Kind) (l : List Rule) : Bool := l.any (fun r => ks.contains r.kind)
+/-- `[r.type for r in l]`: the position checks of `insertRule` read nothing else of the rules -/
+def kindsOf (l : List Rule) : List Kind := l.map (·.kind)
+
+/-- some rule of the list has a kind in `ks` -/
+def hasKind (ks : List Kind) (l : List Kind) : Bool := l.any (fun k => ks.contains k)
 
 /-- `l and l[0].type in ks` -/
-def firstIs (ks : List Kind) : List Rule → Bool
+def firstIs (ks : List Kind) : List Kind → Bool
   | [] => false
-  | r :: _ => ks.contains r.kind
+  | k :: _ => ks.contains k
 
 /-- index after the last rule whose kind is in `ks` (0 if there is none) —
 `for i, r in enumerate(l): if r.type in ks: start = i + 1`, and for a single kind
 `for i, r in enumerate(reversed(l)): if r.type == k: index = len(l) - i; break` -/
-def afterLastOf (ks : List Kind) : List Rule → Nat
+def afterLastOf (ks : List Kind) : List Kind → Nat
   | [] => 0
-  | r :: rs => if hasKind ks rs then afterLastOf ks rs + 1 else if ks.contains r.kind then 1 else 0
+  | k :: rs => if hasKind ks rs then afterLastOf ks rs + 1 else if ks.contains k then 1 else 0
 
 /-- index of the first rule whose kind is in `ks` -/
-def firstIdx (ks : List Kind) : List Rule → Option Nat
+def firstIdx (ks : List Kind) : List Kind → Option Nat
   | [] => none
-  | r :: rs => if ks.contains r.kind then some 0 else (firstIdx ks rs).map (· + 1)
+  | k :: rs => if ks.contains k then some 0 else (firstIdx ks rs).map (· + 1)
 
 /-! ## namespaces: `util._Namespaces` -/
 
@@ -238,7 +241,7 @@ inductive Place where
 
 /-- the `# CHECK HIERARCHY` ladder of `insertRule` (`cssstylesheet.py:650-879`); `index` is already range-checked
 (`len` when the caller gave none) -/
-def place (l : List Rule) (k : Kind) (index : Nat) (inOrder : Bool) : Place :=
+def place (l : List Kind) (k : Kind) (index : Nat) (inOrder : Bool) : Place :=
   if k = .charset then                                                       -- :652
     if inOrder then
       if firstIs [.charset] l then .mergeCharset else .at 0                  -- :656-659
@@ -292,7 +295,7 @@ def adoptId (i : Nat) (l : List Rule) : List Rule := l.map (fun r => if r.id = i
 being parsed); `clean` the `_clean` argument; `track`: the caller holds a reference to `r` (it was not parsed from a
 string inside the call). -/
 def insertCore (st : St) (dict : Dict) (r : Rule) (index : Nat) (inOrder clean track : Bool) : St × Outcome :=
-  match place st.rules r.kind index inOrder with
+  match place (kindsOf st.rules) r.kind index inOrder with
   | .reject e => ({ st with gone := st.gone ++ (if track then [r] else []) }, logError st.raising e)
   | .mergeCharset =>
     -- the encoding is copied, the rule object itself is dropped — but still gets `_parentStyleSheet = self` (:881)
@@ -632,8 +635,12 @@ def reparse (st : St) : St :=
 /-! ## operations -/
 
 inductive Op where
+  /-- `sheet.insertRule(rule, index)` -/
   | insert (s : Spec) (index : Option Int) (viaStr : Bool)
+  /-- `sheet.add(rule)` = `insertRule(rule, index=None, inOrder=True)` -/
   | add (s : Spec) (viaStr : Bool)
+  /-- `sheet.insertRule(rule, index, inOrder=True)` with an explicit index ("ignored", says the doc string) -/
+  | insertOrdered (s : Spec) (index : Int) (viaStr : Bool)
   | delete (i : Int)
   | setEncoding (e : Cps) (valid : Bool)
   | setText (specs : List Spec)
@@ -648,6 +655,7 @@ inductive Op where
 def step (st : St) : Op → St × Outcome
   | .insert s i v => insertRule st s i false v (!v)
   | .add s v => insertRule st s none true v (!v)
+  | .insertOrdered s i v => insertRule st s (some i) true v (!v)
   | .delete i => deleteRule st i
   | .setEncoding e v => setEncoding st e v
   | .setText specs => setText st specs
